@@ -118,7 +118,9 @@ let case_verify () =
     | 2 -> let sz = nt_size p.(0) in
            let cfg = { nb_size = z_of_int sz; nb_off = z_of_int p.(3); nb_len = z_of_int p.(4); nb_sign = (p.(1) = 1); nb_fill = (p.(2) = 1) } in
            optstr (nbit_decode cfg raw (z_of_int (n / sz))), "h" ^ hex (nbit_encode cfg data)
-    | 3 -> optstr (skp_decode (z_of_int p.(0)) raw zn), "h" ^ hex (skp_encode (z_of_int p.(0)) data)
+    | 3 -> optstr (skp_decode (z_of_int p.(0)) raw zn),
+           (* the list-based splay model costs ~1 ms per symbol: on long elements only the decoder (format check) runs *)
+           (if n > 6000 then "na" else "h" ^ hex (skp_encode (z_of_int p.(0)) data))
     | _ -> "na", "na" in
   "M dec=" ^ dec ^ " enc=" ^ enc ^ " hdr=" ^ hdr
 
